@@ -44,17 +44,39 @@ def main(tier, replay):
         "plus a malformed stream (even/zero segments to combine, too large trim / max segment / TOF factor, non-divisor views); input = seeded "
         "detector-pair events histogrammed by the real get_bin_for_det_pos_pair; compared line by line with the Lean model: output geometry tables, "
         "azimuthal offset/sampling, every non-zero output bin (integers exact; normalised output: binary32 division modelled exactly, tolerance 2 ulp). "
-        "Real overlap_interpolate (VectorWithOffset and iterator versions), zoom_image / zoom_image_in_place (2-D-parameter, 3-D-parameter, two-step) "
-        "with all three ZoomOptions, find_centre_of_gravity_in_mm, inverse_SSRB, extend_segment on seeded small arrays/images against the exact Rat model: "
-        "float answers `f:<hex>` are compared with the model's exact value within the tolerance printed by the driver "
+        "The overload SSRB(output_filename, in, ...) (own output geometry, Interfile pair) is run on a third of the cases, its file read back and compared "
+        "with the model as a further `ssrbdata` answer and, by the oracle, bin by bin with the in-memory overload (not when a negative trim widens the "
+        "tangential range beyond the scanner's maximum, which the Interfile reader refuses; the TOF mashing factor of single-TOF-bin data is not compared). "
+        "Real overlap_interpolate (VectorWithOffset and iterator versions), zoom_image / zoom_image_in_place (2-D-parameter, 3-D-parameter, two-step; the input's "
+        "first plane is any of -2..2 for all interfaces, the 2-D-parameter call on a first plane != 0 runs in a child process because it is undefined behaviour "
+        "without build/fixes/C15-3) with all three ZoomOptions, find_centre_of_gravity_in_mm on seeded small arrays/images against the exact Rat model. "
+        "zoom_viewgram(out, in, x, y), zoom_viewgram(viewgram, zoom, min, max, x, y) and zoom_viewgrams on the symmetry-related set "
+        "(DataSymmetriesForBins_PET_CartesianGrid) of arc-corrected viewgrams (8..16 detectors, 1..3 rings, view mashing, azimuthal offset, centred and "
+        "non-centred tangential ranges, TOF and non-TOF, zoom 0.3..3, shifts up to 2.5 bins in x and y, covering and truncating new ranges, the identity "
+        "request): every row against the model (overlapVec with zoom = in_bin/out_bin, offset = (x cos phi + y sin phi)/in_bin, cos/sin through binary64) "
+        "and, inside the driver, against the overlap specification. inverse_SSRB on random sinograms (12 detectors, 2..7 rings, span 1/3 4D data, direct "
+        "sinograms of span 1/3/SSRB geometry and of another ring spacing, TOF): every bin of every 4D sinogram against the model; a fifth of the cases have "
+        "mismatching view / tangential ranges (in a child process) and must be refused. extend_segment with azimuthal sampling k*pi/views, "
+        "k in {1, 2, 1/2, 4/3, 3/2, 3}: 180 degrees (flip), 360 degrees (wrap) and nearest-neighbour branches, all values compared exactly. "
+        "Float answers `f:<hex>` are compared with the model's exact value within the tolerance printed by the driver "
         "(4*n*2^-24*M + boundary term, n = float operations on the path, M = sum of |terms|; see lean/Driver/C15.lean). "
         "Oracle (implementation only): histogram-coarse == histogram-fine-then-SSRB bin by bin, totals conserved without trimming, m / mean phi / s / TOF position "
         "of the receiving bin; zoom: total conserved with preserve_sum when the new grid covers the object (1e-4 rel), centre of mass within (v_in+v_out)/2 "
-        "per axis, uniform stays uniform with preserve_values, all call variants agree (1e-5 rel).")
+        "per axis, uniform stays uniform with preserve_values, all call variants agree (1e-5 rel); zoomed viewgrams, per row: counts conserved when the new "
+        "range covers the data, centroid (in mm, shifted by x cos phi + y sin phi with phi from the view number) within half the sum of the bin sizes, "
+        "uniform rows stay uniform (value*zoom), both overloads bitwise equal; inverse_SSRB: every bin is the linear interpolation in m of the two direct "
+        "sinograms around the output's m, ramp in m reproduced, incompatible data refused; extend_segment: original data untouched, no invented values, "
+        "added views equal the views one period away (360 degrees: same tangential position; 180 degrees, segment 0: mirrored).")
     chk.assumptions += ["32-bit overflow not modelled", "float m / TOF-k comparisons of SSRB (1E-4 mm) replaced by exact quarter-ring / unmashed-bin integers "
                         "(scanner ring spacing is a dyadic float in the generated scanners)",
                         "TOF bins to combine: odd factors only (even factors put input bin edges on output bin edges, decided by float rounding)",
-                        "float rounding of the implementation is bounded, not modelled (except the single binary32 division of the normalised SSRB)"]
+                        "float rounding of the implementation is bounded, not modelled (except the single binary32 division of the normalised SSRB)",
+                        "zoom_viewgram: cos(phi), sin(phi) are taken from binary64 cos/sin of the float angle returned by get_phi (get_phi itself: C01/C12; the "
+                        "oracle recomputes the angle from the view number)",
+                        "model = documented behaviour where the pinned revision has a defect with a repair in build/fixes (C15-1 zoom_viewgram identity request, "
+                        "C15-2 inverse_SSRB guards, C15-3 plane numbering of the 2-D-parameter zoom_image): without the repair the check reports the defect",
+                        "extend_segment: coverages for which the source's 5-samplings comparison is an equality (decided by float rounding) are not generated",
+                        "SSRB(output_filename,...): TOF mashing factor of data with a single TOF bin is not compared after the Interfile round trip (file format: C02)"]
     if audit:
         vlib.proof_coverage(chk, audit, "cd lean && lake build StirVerif stirdriver && lake env lean ../build/out/Audit_C15.lean")
     return chk.finish()
